@@ -108,12 +108,20 @@ func (s *Server) HandlePutService(w http.ResponseWriter, r *http.Request) {
 	}
 	var previousElsewhere *saml.EntityDescriptor
 	if previousEntityID != "" {
-		previousElsewhere, err = s.storedServiceProvider(previousEntityID, r.PathValue("id"))
+		previousElsewhere, _, err = s.storedServiceProvider(previousEntityID, r.PathValue("id"))
 		if err != nil {
 			s.logger.Printf("ERROR: %s", err)
 			http.Error(w, http.StatusText(http.StatusInternalServerError), http.StatusInternalServerError)
 			return
 		}
+	}
+	// Another stored service may carry the new entity ID too. The one that is last in
+	// name order is served, as initializeServices would pick after a restart.
+	elsewhere, elsewhereName, err := s.storedServiceProvider(service.Metadata.EntityID, r.PathValue("id"))
+	if err != nil {
+		s.logger.Printf("ERROR: %s", err)
+		http.Error(w, http.StatusText(http.StatusInternalServerError), http.StatusInternalServerError)
+		return
 	}
 
 	err = s.Store.Put(fmt.Sprintf("/services/%s", r.PathValue("id")), &service)
@@ -123,7 +131,11 @@ func (s *Server) HandlePutService(w http.ResponseWriter, r *http.Request) {
 		return
 	}
 
-	s.serviceProviders[service.Metadata.EntityID] = &service.Metadata
+	if elsewhere != nil && elsewhereName > r.PathValue("id") {
+		s.serviceProviders[service.Metadata.EntityID] = elsewhere
+	} else {
+		s.serviceProviders[service.Metadata.EntityID] = &service.Metadata
+	}
 	if previousEntityID != "" {
 		if previousElsewhere != nil {
 			s.serviceProviders[previousEntityID] = previousElsewhere
@@ -150,7 +162,7 @@ func (s *Server) HandleDeleteService(w http.ResponseWriter, r *http.Request) {
 
 	// The entity ID stays registered if another stored service still carries it. Find
 	// that out before deleting, so that a store error leaves registry and store in step.
-	elsewhere, err := s.storedServiceProvider(service.Metadata.EntityID, r.PathValue("id"))
+	elsewhere, _, err := s.storedServiceProvider(service.Metadata.EntityID, r.PathValue("id"))
 	if err != nil {
 		s.logger.Printf("ERROR: %s", err)
 		http.Error(w, http.StatusText(http.StatusInternalServerError), http.StatusInternalServerError)
@@ -172,29 +184,31 @@ func (s *Server) HandleDeleteService(w http.ResponseWriter, r *http.Request) {
 	w.WriteHeader(http.StatusNoContent)
 }
 
-// storedServiceProvider returns the metadata of a stored service other than
-// exceptServiceName that carries entityID (the last one in name order, as
-// initializeServices would pick), or nil if there is none.
-func (s *Server) storedServiceProvider(entityID string, exceptServiceName string) (*saml.EntityDescriptor, error) {
+// storedServiceProvider returns the metadata and the name of a stored service
+// other than exceptServiceName that carries entityID (the last one in name order,
+// as initializeServices would pick), or nil if there is none.
+func (s *Server) storedServiceProvider(entityID string, exceptServiceName string) (*saml.EntityDescriptor, string, error) {
 	serviceNames, err := s.Store.List("/services/")
 	if err != nil {
-		return nil, err
+		return nil, "", err
 	}
 	sort.Strings(serviceNames)
 	var rv *saml.EntityDescriptor
+	rvName := ""
 	for _, serviceName := range serviceNames {
 		if serviceName == exceptServiceName {
 			continue
 		}
 		service := Service{}
 		if err := s.Store.Get(fmt.Sprintf("/services/%s", serviceName), &service); err != nil {
-			return nil, err
+			return nil, "", err
 		}
 		if service.Metadata.EntityID == entityID {
 			rv = &service.Metadata
+			rvName = serviceName
 		}
 	}
-	return rv, nil
+	return rv, rvName, nil
 }
 
 // initializeServices reads all the stored services and initializes the underlying
